@@ -51,6 +51,9 @@ def build_project(pdesc, path):
             stamps.append(_write_file(os.path.join(job.path, rel), data, mt))
         for rel in jd.get("dirs", []):
             os.makedirs(os.path.join(job.path, rel), exist_ok=True)
+        for rel, target in jd.get("links", {}).items():      # symbolic links (outside the model, see has_links)
+            os.makedirs(os.path.dirname(os.path.join(job.path, rel)), exist_ok=True)
+            os.symlink(target, os.path.join(job.path, rel))
         if jd.get("doc") is not None:
             job.document.reset(jd["doc"])
             if not os.path.exists(job.fn(FN_DOC)):      # reset({}) may not write
@@ -71,7 +74,7 @@ def build_project(pdesc, path):
         for fn in fns:
             p = os.path.join(dp, fn)
             mt = given.get(p, META_MT if fn in JSON_NAMES else DEFAULT_MT)
-            os.utime(p, (mt, mt))
+            os.utime(p, (mt, mt), follow_symlinks=False)
     return ids
 
 
@@ -84,7 +87,9 @@ def build_pair(desc, root):
 # ------------------------------------------------------------------------------------------ snapshots
 def snap_node(path):
     """('f', bytes, mt) | ('d', [(name, node)...]) in os.scandir order."""
-    if os.path.isdir(path) and not os.path.islink(path):
+    if os.path.islink(path):
+        return ("f", b"\x00symlink->" + os.fsencode(os.readlink(path)), int(os.lstat(path).st_mtime * MT_SCALE))
+    if os.path.isdir(path):
         with os.scandir(path) as it:
             names = [e.name for e in it]
         return ("d", [(n, snap_node(os.path.join(path, n))) for n in names])
@@ -204,10 +209,25 @@ def exclude_fn(ex):
     return lambda name: any(re.match(p, name) for p in pats)
 
 
+class _Raises(Exception):
+    """marker used by the table builder only"""
+
+
 def key_strategy_obj(ks):
-    """None | ['pred', [names]] | ['regex', pattern] -> (python object for ByKey, bool function)."""
+    """None | ['pred', [names]] | ['regex', pattern] | ['fault', [names], [raising names], exception class name]
+    -> (python object for ByKey, function name -> True / False / None (= raises))."""
     if ks is None:
         return None, None
+    if ks[0] == "fault":
+        names, bad = set(ks[1]), set(ks[2])
+        exc = {"KeyboardInterrupt": KeyboardInterrupt, "SystemExit": SystemExit}[ks[3]]
+
+        def strategy(key):
+            if key in bad:
+                raise exc("key strategy interrupted at " + key)
+            return key in names
+
+        return strategy, (lambda key: None if key in bad else key in names)
     if ks[0] == "pred":
         names = set(ks[1])
         f = lambda key: key in names       # noqa: E731
@@ -259,7 +279,10 @@ def prime_call(desc, root, opts):
     dst = signac.get_project(os.path.join(root, "dst"))
     ssp, dsp = desc["prime"]
     try:
-        sync_jobs(src=src.open_job(ssp), dst=dst.open_job(dsp), doc_sync=objs[1], strategy=objs[0])
+        if desc.get("reuse_exclude"):      # the caller's own exclude LIST serves this call and the observed one
+            sync_jobs(src=src.open_job(ssp), dst=dst.open_job(dsp), strategy=objs[0], exclude=objs[2])
+        else:
+            sync_jobs(src=src.open_job(ssp), dst=dst.open_job(dsp), doc_sync=objs[1], strategy=objs[0])
         return objs, None
     except Exception as e:       # noqa: BLE001
         return objs, exn_name(e)
@@ -269,7 +292,7 @@ def do_call(desc, root, ids_s, ids_d, opts, objs=None):
     """Run the real call with fresh handles; returns the exception class name or None."""
     import signac
 
-    filecmp.clear_cache()
+    # NB: filecmp's process-wide cache is deliberately NOT cleared here (it used to be, which hid 23d4b64's defect)
     src = signac.get_project(os.path.join(root, "src"))
     dst = signac.get_project(os.path.join(root, "dst"))
     strategy, doc_sync, exclude = objs if objs is not None else make_call_objects(opts)
@@ -289,14 +312,27 @@ def _do_call_inner(desc, src, dst, strategy, doc_sync, exclude, opts, entry):
                 selection = None
             else:
                 sids = [calc(sp) for sp in sel[1]]
-                if sel[0] == "ids":
+                kind = sel[0]
+                if kind == "ids":
                     selection = sids
-                else:
+                elif kind == "jobs":
                     selection = [src.open_job(sp) for sp in sel[1]]
+                elif kind == "gen_ids":                       # one-shot iterables
+                    selection = (i for i in sids)
+                elif kind == "gen_jobs":
+                    selection = (src.open_job(sp) for sp in sel[1])
+                elif kind == "iter_ids":
+                    selection = iter(list(sids))
+                elif kind == "map_jobs":
+                    selection = map(src.open_job, list(sel[1]))
+                else:                                         # "groupby": the first group of project.groupby('a')
+                    selection = next(iter(src.groupby("a")), (None, iter(())))[1]
             kwargs = dict(strategy=strategy, exclude=exclude, doc_sync=doc_sync, selection=selection,
                           check_schema=opts.get("check_schema", True), recursive=opts.get("recursive", False),
                           deep=opts.get("deep", False), dry_run=opts.get("dry_run", False),
                           parallel=opts.get("parallel", False))
+            if "follow_symlinks" in opts:
+                kwargs["follow_symlinks"] = opts["follow_symlinks"]
             if entry == "Project.sync":
                 dst.sync(src, **kwargs)
             else:
@@ -308,12 +344,14 @@ def _do_call_inner(desc, src, dst, strategy, doc_sync, exclude, opts, entry):
             kwargs = dict(strategy=strategy, exclude=exclude, doc_sync=doc_sync,
                           recursive=opts.get("recursive", False), deep=opts.get("deep", False),
                           dry_run=opts.get("dry_run", False))
+            if "follow_symlinks" in opts:
+                kwargs["follow_symlinks"] = opts["follow_symlinks"]
             if kind == "Job.sync":
                 dj.sync(sj, **kwargs)
             else:
                 sync_jobs(src=sj, dst=dj, **kwargs)
         return None
-    except Exception as e:       # noqa: BLE001
+    except (Exception, KeyboardInterrupt, SystemExit) as e:       # noqa: BLE001  (strategy callbacks may raise these)
         return exn_name(e)
     finally:
         # ThreadPool.terminate() does not join its worker threads: after an exception they may still be
@@ -375,11 +413,26 @@ def run_scenario(desc, prop):
 
         order_s = [j.id for j in signac.get_project(os.path.join(main, "src"))]
         order_d = [j.id for j in signac.get_project(os.path.join(main, "dst"))]
+        group_ids = [j.id for j in next(iter(signac.get_project(os.path.join(main, "src")).groupby("a")), (None, []))[1]] \
+            if (opts.get("selection") or [None])[0] == "groupby" else []
         objs, primed = None, None
         if desc.get("prime"):
             objs, primed = prime_call(desc, main, opts)       # before the "before" snapshot
+        if desc.get("deep_history"):
+            # an earlier deep comparison of the same paths in this process, then a content change that keeps size
+            # and mtime (filecmp remembers verdicts by path, size and mtime)
+            do_call(desc, main, ids_s, ids_d, opts)
+            for side, sp, rel, data in desc["deep_history"]:
+                job = signac.get_project(os.path.join(main, side)).open_job(sp)
+                st = os.stat(job.fn(rel))
+                with open(job.fn(rel), "wb") as fh:
+                    fh.write(data.encode("latin-1"))
+                os.utime(job.fn(rel), ns=(st.st_atime_ns, st.st_mtime_ns))
+        excl_before = list(objs[2]) if objs is not None and isinstance(objs[2], list) else None
         s0, d0, ok0 = observe(main, order_s, order_d)
         exn1 = do_call(desc, main, ids_s, ids_d, opts, objs)
+        if excl_before is not None and (objs[2] != excl_before or list(objs[2]) != list(opts.get("exclude") or [])):
+            ok0 = False                                       # the caller's exclude list was modified
         s1, d1, ok1 = observe(main, order_s, order_d)
         rest1 = ok0 and ok1 and s0["rest"] == s1["rest"] and d0["rest"] == d1["rest"]
         again = None
@@ -444,14 +497,19 @@ def run_scenario(desc, prop):
             cand = set()
             for v in docs:
                 key_names(v, [], cand)
-            ds = "(DS_bykey (Some %s))" % coq_tabf({k: True for k in cand if kf(k)})
+            raising = sorted(k for k in cand if kf(k) is None)
+            ds = "(DS_bykey (Some (tabk %s %s)))" % (
+                coq_list([f"({coq_str(k)}, true)" for k in sorted(cand) if kf(k)], "(str * bool)"),
+                coq_list([coq_str(k) for k in raising], "str"))
     sel = opts.get("selection")
     if sel is None:
         selection = "None"
+    elif sel[0] == "groupby":
+        selection = "(Some %s)" % coq_list([coq_str(i) for i in group_ids], "str")
     else:
         selection = "(Some %s)" % coq_list([coq_str(calc(sp)) for sp in sel[1]], "str")
     o = ("{| o_strategy := %s; o_docsync := %s; o_recursive := %s; o_exclude := %s; o_selection := %s; "
-         "o_check_schema := %s; o_deep := %s; o_dry_run := %s |}" % (
+         "o_check_schema := %s; o_deep := %s; o_dry_run := %s; o_top := true |}" % (
              strat, ds, coq_bool(opts.get("recursive", False)), coq_tabf(ex_tab), selection,
              coq_bool(opts.get("check_schema", True)), coq_bool(opts.get("deep", False)),
              coq_bool(opts.get("dry_run", False))))
@@ -460,8 +518,8 @@ def run_scenario(desc, prop):
         en = "E_project"
     else:
         en = "(E_job %s %s %s)" % (coq_str(calc(entry[1])), coq_str(calc(entry[2])), coq_json(entry[2]))
-    inp = "{| i_src := %s; i_dst := %s; i_opts := %s; i_entry := %s; i_parallel := %s |}" % (
-        coq_project(s0), coq_project(d0), o, en, coq_bool(bool(opts.get("parallel", False))))
+    inp = "{| i_src := %s; i_dst := %s; i_opts := %s; i_entry := %s; i_parallel := %s; i_unmodelled := %s |}" % (
+        coq_project(s0), coq_project(d0), o, en, coq_bool(bool(opts.get("parallel", False))), coq_bool(has_links(desc)))
     allsnaps = [s0, d0, s1, d1] + ([again[1], again[2]] if again else []) + ([ref[1], ref[2]] if ref else [])
     vals = []
     for snap in allsnaps:
@@ -481,8 +539,15 @@ def run_scenario(desc, prop):
              "strategy=" + (s if isinstance(s, str) else ("None" if s is None else "custom")),
              "doc_sync=" + (dsy if isinstance(dsy, str) else ("default" if dsy is None else "ByKey:" + ("None" if dsy[1] is None else dsy[1][0]))),
              "outcome=" + (exn1 or ("changed" if changed else "no-change"))]
-    if desc.get("prime"):
+    if desc.get("reuse_exclude"):
+        kinds.append("caller-exclude-list-reused")
+    elif desc.get("prime"):
         kinds.append("ByKey-instance-reused-after-" + str(primed))
+    if desc.get("deep_history"):
+        kinds.append("earlier-deep-comparison-then-same-size-same-mtime-change")
+    if has_links(desc):
+        kinds.append("symlinks(unmodelled)")
+        kinds.append("follow_symlinks=" + str(opts.get("follow_symlinks", True)))
     for flag in ("recursive", "deep", "dry_run", "parallel"):
         if opts.get(flag):
             kinds.append(flag)
@@ -494,6 +559,10 @@ def run_scenario(desc, prop):
         kinds.append("check_schema=False")
     return Case(coq, desc, obs=obs, nontrivial=bool(changed or exn1 or (ref and (ref[0] or strip_order(ref[2]) != strip_order(d0)))),
                 kinds=kinds)
+
+
+def has_links(desc):
+    return any(j.get("links") for side in ("src", "dst") for j in desc[side]["jobs"])
 
 
 def strip_order(snap):
@@ -696,7 +765,7 @@ def rand_selection(rng, src, dst):
     chosen = [sp for sp in sps if rng.random() < 0.5]
     if rng.random() < 0.3:
         chosen.append(rng.choice(extra))
-    return [rng.choice(["ids", "jobs"]), chosen]
+    return [rng.choice(["ids", "jobs", "ids", "jobs", "gen_ids", "gen_jobs", "iter_ids", "map_jobs", "groupby"]), chosen]
 
 
 def rand_job_entry(rng, src, dst):
@@ -955,4 +1024,162 @@ def core_exclude_cases(dries=(False,)):
                             if dry:
                                 opts["dry_run"] = True
                             out.append({"src": src, "dst": {"jobs": djobs}, "opts": opts, "entry": entry})
+    return out
+
+
+def core_selection_cases():
+    """selection given as list / one-shot iterables (generator, iter, map, a groupby group) of ids or jobs."""
+    out = []
+    for kind in ("ids", "jobs", "gen_ids", "gen_jobs", "iter_ids", "map_jobs", "groupby"):
+        for chosen in ([{"a": 0}], [{"a": 0}, {"a": 1}], [{"a": 1}, {"a": 7}], []):
+            for entry in ("Project.sync", "sync_projects"):
+                for parallel in (False, 2):
+                    src = {"jobs": [{"sp": {"a": i}, "files": {"x": ["A%d" % i, 1000]}, "dirs": [], "doc": {"k": i}} for i in range(3)]}
+                    dst = {"jobs": [{"sp": {"a": 1}, "files": {}, "dirs": []}]}
+                    opts = {"strategy": "always", "check_schema": False, "selection": [kind, chosen]}
+                    if parallel:
+                        opts["parallel"] = parallel
+                    out.append({"src": src, "dst": dst, "opts": opts, "entry": entry})
+    return out
+
+
+def core_fault_cases():
+    """A key strategy callback that raises KeyboardInterrupt / SystemExit (an interactive strategy interrupted, sys.exit in
+    a callback) after earlier keys have been merged: the document must be rolled back like after any other failure."""
+    out = []
+    docs = [({"a": 1, "b": 2, "c": 3, "new": 9}, {"a": 0, "b": 0, "c": 0, "keep": 5}),
+            ({"new": 9, "n": {"p": 1, "q": 2}, "z": 1}, {"n": {"p": 0, "q": 0}, "z": 0}),
+            ({"a": 1}, {"a": 0})]
+    for sdoc, ddoc in docs:
+        for bad in (["a"], ["b"], ["c"], ["z"], ["n.q"], ["n.p", "z"]):
+            for exc in ("KeyboardInterrupt", "SystemExit"):
+                for level in ("job", "project", "pdoc"):
+                    for dry in (False, True):
+                        ks = ["fault", ["a", "b", "c", "z", "n.p", "n.q"], bad, exc]
+                        opts = {"doc_sync": ["bykey", ks], "check_schema": False, "strategy": "always"}
+                        if dry:
+                            opts["dry_run"] = True
+                        if level == "pdoc":
+                            src = {"jobs": [], "pdoc": sdoc}
+                            dst = {"jobs": [], "pdoc": ddoc}
+                            entry = "Project.sync"
+                        else:
+                            src = {"jobs": [{"sp": {"a": 0}, "files": {"x": ["A", 1000]}, "dirs": [], "doc": sdoc}]}
+                            dst = {"jobs": [{"sp": {"a": 0}, "files": {}, "dirs": [], "doc": ddoc}]}
+                            entry = ["Job.sync", {"a": 0}, {"a": 0}] if level == "job" else "sync_projects"
+                        out.append({"src": src, "dst": dst, "opts": opts, "entry": entry})
+    return out
+
+
+def core_symlink_cases():
+    """Dry runs over trees with symbolic links (file links inside the job, to a file outside it, dangling), with
+    follow_symlinks True / False.  Outside the model (i_unmodelled): only "a dry run changes nothing and ends like the
+    real run" is checked, on the observation."""
+    out = []
+    for follow in (True, False):
+        for link, target in (("lnk", "real.txt"), ("lnk", "../../outside.txt"), ("lnk", "missing"), ("sub/lnk", "../real.txt")):
+            for dst_kind in ("absent", "file_same", "file_other", "link_other"):
+                for strat in (None, "always", "never"):
+                    for recursive in (False, True):
+                        for entry in ("Project.sync", ["Job.sync", {"a": 0}, {"a": 0}]):
+                            sj = {"sp": {"a": 0}, "files": {"real.txt": ["REAL", 1000]}, "dirs": ["sub"], "links": {link: target}}
+                            dj = {"sp": {"a": 0}, "files": {"real.txt": ["REAL", 1000]}, "dirs": ["sub"]}
+                            if dst_kind == "file_same":
+                                dj["files"][link] = ["REAL", 1000]
+                            elif dst_kind == "file_other":
+                                dj["files"][link] = ["OTHER", 2000]
+                            elif dst_kind == "link_other":
+                                dj["files"]["v1.txt"] = ["V1", 1000]
+                                dj["links"] = {link: ("v1.txt" if "/" not in link else "../v1.txt")}
+                            src = {"jobs": [sj, {"sp": {"a": 1}, "files": {"t": ["T", 1000]}, "dirs": [], "links": {"l2": "t"}}],
+                                   "top_files": {"outside.txt": ["OUT", 1000]}}
+                            opts = {"strategy": strat, "recursive": recursive, "check_schema": False, "dry_run": True,
+                                    "follow_symlinks": follow, "doc_sync": "nosync"}
+                            out.append({"src": src, "dst": {"jobs": [dj]}, "opts": opts, "entry": entry})
+    return out
+
+
+def core_deep_history_cases():
+    """deep=True after an earlier deep comparison of the same paths in the same process: the files were identical then;
+    one of them has since changed content keeping size and mtime."""
+    out = []
+    for rel in ("x", "sub/x"):
+        for side in ("dst", "src"):
+            for strat in (None, "always", "never"):
+                for entry in ("Project.sync", ["Job.sync", {"a": 0}, {"a": 0}]):
+                    for dry in (False, True):
+                        src = {"jobs": [{"sp": {"a": 0}, "files": {rel: ["AAAA", 1000], "keep": ["K", 1000]}, "dirs": []}]}
+                        dst = {"jobs": [{"sp": {"a": 0}, "files": {rel: ["AAAA", 1000], "keep": ["K", 1000]}, "dirs": []}]}
+                        opts = {"strategy": strat, "recursive": True, "deep": True, "check_schema": False, "doc_sync": "nosync"}
+                        if dry:
+                            opts["dry_run"] = True
+                        out.append({"src": src, "dst": dst, "opts": opts, "entry": entry,
+                                    "deep_history": [[side, {"a": 0}, rel, "BBBB"]]})
+    return out
+
+
+def core_reuse_exclude_cases():
+    """One caller-owned exclude LIST serves two calls: sync_jobs with the default document strategy on another pair, then
+    the observed call (DocSync.COPY among others).  The list must come back unchanged and the second call must behave
+    as with a fresh list."""
+    out = []
+    for ex in (["x"], [], [".*\\.tmp", "y"]):
+        for ds in ("copy", None, "update", "nosync"):
+            for entry in (["Job.sync", {"a": 0}, {"a": 0}], "Project.sync"):
+                for ddoc in (None, {"d": 1}):
+                    sj = {"sp": {"a": 0}, "files": {"x": ["A", 1000], "z": ["Z", 1000]}, "dirs": [], "doc": {"result": 42}}
+                    dj = {"sp": {"a": 0}, "files": {}, "dirs": []}
+                    if ddoc is not None:
+                        dj["doc"] = ddoc
+                    src = {"jobs": [sj, {"sp": {"a": 1}, "files": {}, "dirs": [], "doc": {"k": 1}}]}
+                    dst = {"jobs": [dj, {"sp": {"a": 1}, "files": {}, "dirs": []}]}
+                    opts = {"doc_sync": ds, "exclude": ex, "check_schema": False, "strategy": "always"}
+                    if isinstance(entry, str):
+                        opts["selection"] = ["ids", [{"a": 0}]]
+                    out.append({"src": src, "dst": dst, "opts": opts, "entry": entry, "prime": [{"a": 1}, {"a": 1}], "reuse_exclude": True})
+    return out
+
+
+def core_clash_cases():
+    """A name that is a file on one side and a directory on the other, at the top level and nested; and user files
+    that carry the name of the state point / document file in a sub-directory."""
+    out = []
+    for rel, skind in (("out", "dir"), ("out", "file"), ("sub/out", "dir"), ("sub/out", "file")):
+        for strat in (None, "always", "never"):
+            for recursive in (False, True):
+                for ex in (None, "out", "data"):
+                    for entry in ("Project.sync", ["sync_jobs", {"a": 0}, {"a": 0}]):
+                        sfiles, dfiles, sdirs, ddirs = {"keep": ["K", 1000]}, {"keep": ["K", 1000]}, [], []
+                        if "/" in rel:
+                            sfiles["sub/keep"] = ["K", 1000]
+                            dfiles["sub/keep"] = ["K", 1000]
+                        if skind == "dir":
+                            sfiles[rel + "/data.txt"] = ["payload", 1000]
+                            dfiles[rel] = ["i am a file", 1000]
+                        else:
+                            sfiles[rel] = ["source file", 1000]
+                            ddirs.append(rel)
+                        opts = {"strategy": strat, "recursive": recursive, "check_schema": False, "doc_sync": "nosync"}
+                        if ex:
+                            opts["exclude"] = ex
+                        out.append({"src": {"jobs": [{"sp": {"a": 0}, "files": sfiles, "dirs": sdirs}]},
+                                    "dst": {"jobs": [{"sp": {"a": 0}, "files": dfiles, "dirs": ddirs}]}, "opts": opts, "entry": entry})
+    for name in (FN_SP, FN_DOC):
+        for kind in ("conflict", "src_only", "in_leftonly_dir", "same"):
+            for strat in (None, "always", "never"):
+                for ds in (None, "copy"):
+                    for ex in (None, "signac"):
+                        for entry in ("Project.sync", ["Job.sync", {"a": 0}, {"a": 0}]):
+                            sfiles, dfiles = {"inner/" + name: ['{"who": "src"}', 1000], "inner/c": ["C", 1000]}, {"inner/c": ["C", 1000]}
+                            if kind == "conflict":
+                                dfiles["inner/" + name] = ['{"who": "dst"}', 1000]
+                            elif kind == "same":
+                                dfiles["inner/" + name] = ['{"who": "src"}', 1000]
+                            elif kind == "in_leftonly_dir":
+                                dfiles = {}
+                            opts = {"strategy": strat, "recursive": True, "check_schema": False, "doc_sync": ds}
+                            if ex:
+                                opts["exclude"] = ex
+                            out.append({"src": {"jobs": [{"sp": {"a": 0}, "files": sfiles, "dirs": [], "doc": {"k": 1}}]},
+                                        "dst": {"jobs": [{"sp": {"a": 0}, "files": dfiles, "dirs": []}]}, "opts": opts, "entry": entry})
     return out
